@@ -118,6 +118,20 @@ func cmdWorker(args []string) int {
 	}
 	var outs []engine.Output
 	scs := c.Scenarios(*tier)
+	if *tier == "thorough" {
+		// small scenarios (fault sequences, rooted / debt / two-model variants) first: what they leave of their slice
+		// goes to the big lifecycle scenarios at the end
+		weight := func(id string) int {
+			switch {
+			case strings.Contains(id, "-to-"):
+				return 0
+			case strings.HasSuffix(id, "-life") || strings.HasSuffix(id, "-life-r1"):
+				return 2
+			}
+			return 1
+		}
+		sort.SliceStable(scs, func(a, b int) bool { return weight(scs[a].ID) < weight(scs[b].ID) })
+	}
 	for i, sc := range scs {
 		// the time budget is shared fairly: every scenario gets an equal part of what is left, so a big scenario that
 		// hits its cap (reported as exhaustive:false with the depth completed) cannot starve the ones after it
